@@ -31,6 +31,7 @@ var serverStubs = map[string]string{
 	"(*github.com/aws/aws-sdk-go-v2/service/s3.Client).PutObject": "verifStubPutObject",
 	"github.com/tailscale/setec/server.backupKey":                 "verifStubBackupKey",
 	"context.WithTimeout":                                         "verifStubWithTimeout",
+	"context.WithoutCancel":                                       "verifStubWithoutCancel",
 	"time.After":                                                  "verifStubTimeAfter",
 	"time.NewTicker":                                              "verifStubNewTicker",
 	"(*time.Ticker).Stop":                                         "verifStubTickerStop",
